@@ -89,11 +89,20 @@ def collect_links(root, types):
                 stack.append(dt)
     return links
 
-def run_config(case, entry: str, override=None, hash_seed=None):
-    """Materialise and read. Returns projection dict."""
+def run_config(case, entry: str, override=None, hash_seed=None, twice=False):
+    """Materialise and read. Returns projection dict. twice: the same call is made a second time on the same tree in the
+    same process; what the second call returns and prints is kept under "second"."""
+    with dsdlio.Tree(files_of(case, override), "rd") as tr:
+        first = _read_once(tr, case, entry)
+        if twice:
+            second = _read_once(tr, case, entry)
+            first["second"] = {k: second.get(k) for k in ("ok", "direct", "transitive", "prints", "path", "line", "cls")}
+        return first
+
+def _read_once(tr, case, entry):
     import pydsdl
     from pydsdl import _verif_trace
-    with dsdlio.Tree(files_of(case, override), "rd") as tr:
+    if True:
         root = str(tr.root)
         _verif_trace.drain()
         prints = []
@@ -114,7 +123,8 @@ def run_config(case, entry: str, override=None, hash_seed=None):
                     head, tail = rp.rsplit("/", 1)
                     variant = (idnum(t) + len(targets)) % 3
                     if variant == 2:
-                        os.symlink(tr.path(head), tr.path("d1/alias"))
+                        if not os.path.lexists(tr.path("d1/alias")):
+                            os.symlink(tr.path(head), tr.path("d1/alias"))
                         alt = os.path.join(tr.path("d1/alias"), tail)
                     else:
                         alt = os.path.join(tr.path(head), "..", os.path.basename(head), tail)
@@ -257,8 +267,16 @@ def worker(arg):
     case, out = _case(st), st["out"]
     exp = expected(out)
     tset = {idkey(d) for d in case["defs"] if d["dir"] == 1} if entry == "namespace" else {idkey(t) for t in case["targets"]}
-    got = run_config(case, entry)
+    twice = core.pick(block, "twice", 3) == 0
+    got = run_config(case, entry, twice=twice)
     diffs = compare(exp, got, entry, tset)
+    if twice and not diffs:
+        # reading is a function of the files: the same call repeated in the same process returns and prints the same
+        sec = got["second"]
+        fst = {k: got.get(k) for k in ("ok", "direct", "transitive", "prints", "path", "line", "cls")}
+        if sec != fst:
+            diffs.append(("generic", ("the same call repeated on the same files gives another result / other @print events",
+                                      {k: sec[k] for k in sec if sec[k] != fst[k]}, {k: fst[k] for k in sec if sec[k] != fst[k]})))
     for d in compare_events(expected_log(out), {idkey(i) for i in out["closure"]}, tset, got.get("events", []), bool(out["ok"])):
         diffs.append(("trace", d))
     bad = []
@@ -343,7 +361,8 @@ def run_c17(ctx):
         if b["kind"] == "print-path":
             return True
         keep = [d for d in b["diff"] if d[0] in ("error path", "error line", "print events (line, text)",
-                                                  "error class is not InvalidDefinitionError")]
+                                                  "error class is not InvalidDefinitionError",
+                                                  "the same call repeated on the same files gives another result / other @print events")]
         if not keep:
             return False
         b["diff"] = keep
